@@ -171,7 +171,7 @@ class DataReadout(MeterMessageBase):
     def is_valid(self) -> bool:
         """Return True when valitation (checksum etc.) is successfull."""
         expected_checksum = self.expected_checksum
-        if expected_checksum:
+        if expected_checksum is not None:
             if self._calculated_crc != expected_checksum:
                 _LOGGER.debug(
                     "Expected cheksum is 0x%x, but calculated is 0x%x",
